@@ -679,3 +679,40 @@ Proof.
   rewrite read_re_translated; [|apply lex_fuel_valid|exact Hwf].
   cbn [bind]. now rewrite match_items_gmatch.
 Qed.
+
+(* ------------------------------------------------------------------ the boolean matcher of Spec.Glob is the relation *)
+Lemma cuts_in : forall n u v, In (u, v) (cuts n) -> n = u ++ v.
+Proof.
+  intros n u v H. unfold cuts in H. apply in_map_iff in H. destruct H as (k & E & _).
+  injection E as <- <-. symmetry. apply firstn_skipn.
+Qed.
+
+Lemma in_cuts : forall u v, In (u, v) (cuts (u ++ v)).
+Proof.
+  intros u v. unfold cuts. apply in_map_iff. exists (length u). split.
+  - f_equal; [now apply firstn_app_len|now apply skipn_app_len].
+  - apply List.in_seq. rewrite app_length. lia.
+Qed.
+
+Theorem gmatch_Matches : forall ts n, gmatch ts n = true <-> Matches ts n.
+Proof.
+  intros ts n. split.
+  - revert n. induction ts as [|t r IH]; intros n H.
+    + destruct n; [constructor|discriminate].
+    + destruct t as [| | |neg seq|c]; cbn [gmatch] in H.
+      * apply existsb_exists in H. destruct H as ([u v] & Hin & H). cbn [fst snd] in H.
+        apply andb_prop in H. destruct H as [H1 H2]. rewrite (cuts_in n u v Hin). constructor; auto.
+      * apply existsb_exists in H. destruct H as ([u v] & Hin & H). cbn [fst snd] in H.
+        rewrite (cuts_in n u v Hin). constructor; auto.
+      * destruct n as [|x n']; [discriminate|]. constructor; auto.
+      * destruct n as [|x n']; [discriminate|]. apply andb_prop in H. destruct H as [H1 H2]. constructor; auto.
+      * destruct n as [|x n']; [discriminate|]. apply andb_prop in H. destruct H as [H1 H2].
+        apply N.eqb_eq in H1. subst x. constructor; auto.
+  - induction 1 as [|r u v Hu Hm IH|r u v Hm IH|r x v Hm IH|r neg seq x v Hx Hm IH|r c v Hm IH]; cbn [gmatch].
+    + reflexivity.
+    + apply existsb_exists. exists (u, v). split; [apply in_cuts|]. cbn [fst snd]. now rewrite Hu, IH.
+    + apply existsb_exists. exists (u, v). split; [apply in_cuts|]. exact IH.
+    + exact IH.
+    + now rewrite Hx, IH.
+    + now rewrite N.eqb_refl, IH.
+Qed.
